@@ -352,18 +352,16 @@ where
         let gate = self.gate.clone();
         let pool = self.pool.clone();
         let mut err = None;
+        let finished = std::sync::atomic::AtomicBool::new(false);
         std::thread::scope(|s| {
-            let h = s.spawn(move || pool.install(|| Parallel::<P>::new().evaluate(problem, state, individuals)));
-            match gate.wait_arrived(n) {
-                Ok(_) => {
-                    for id in &order {
-                        gate.release(*id);
-                        if let Err(e) = gate.wait_done(*id) {
-                            err = Some(e);
-                            break;
-                        }
-                    }
-                }
+            let fin = &finished;
+            let h = s.spawn(move || {
+                pool.install(|| Parallel::<P>::new().evaluate(problem, state, individuals));
+                fin.store(true, std::sync::atomic::Ordering::SeqCst);
+            });
+            match gate.drive(&order, n, &finished, std::time::Duration::from_millis(1000)) {
+                Ok(true) => err = Some("degraded: not all objective calls of the step ran concurrently".to_string()),
+                Ok(false) => {}
                 Err(e) => err = Some(e),
             }
             gate.set_active(false);
@@ -693,9 +691,9 @@ pub fn all_specs(iters: u32, thorough: bool) -> Vec<Box<dyn AnySpec>> {
         for n in [3u32, 2, 1] {
             spec!(v, "real_bh", format!("{} n={}", k, n), real_problem(kind), iters, exact(n as usize), move |c| bh::real_bh(bh::RealProblemParameters { num_particles: n }, c));
         }
-        for (pop, mc, lr, al, be, ke, buf) in [(3u32, 0.5, 0.1, 2u32, 0.5, 1.0, 0.0), (1, 0.9, 0.5, 0, 10.0, 0.5, 5.0), (2, 0.0, 0.0, 1, 0.1, 2.0, 1.0)] {
+        for (pop, mc, lr, al, be, ke, buf, mult) in [(3u32, 0.5, 0.1, 2u32, 0.5, 1.0, 0.0, 1u32), (1, 0.9, 0.5, 0, 10.0, 0.5, 5.0, 1), (2, 0.0, 0.0, 1, 0.1, 2.0, 1.0, 1), (2, 0.5, 0.1, 0, 0.0, 4.0, 2.0, 5)] {
             let rule: (Box<dyn Fn(usize, usize) -> bool + Send + Sync>, String) = (Box::new(|_, n| n >= 1), ">= 1".to_string());
-            spec!(v, "real_cro", format!("{} pop={} mole_coll={} alpha={} beta={}", k, pop, mc, al, be), real_problem(kind), iters, rule, move |c| cro::real_cro(cro::RealProblemParameters { initial_population_size: pop, mole_coll: mc, kinetic_energy_lr: lr, alpha: al, beta: be, initial_kinetic_energy: ke, buffer: buf, on_wall_deviation: 0.2, decomposition_deviation: 0.3 }, c));
+            spec!(v, "real_cro", format!("{} pop={} mole_coll={} alpha={} beta={} iterations x{}", k, pop, mc, al, be, mult), real_problem(kind), iters * mult, rule, move |c| cro::real_cro(cro::RealProblemParameters { initial_population_size: pop, mole_coll: mc, kinetic_energy_lr: lr, alpha: al, beta: be, initial_kinetic_energy: ke, buffer: buf, on_wall_deviation: 0.2, decomposition_deviation: 0.3 }, c));
         }
     }
     for (pop, tour, rm, pc, pm) in [(4u32, 2u32, 0.25, 0.8, 0.5), (2, 2, 1.0, 0.0, 1.0), (3, 1, 0.5, 1.0, 0.0)] {
